@@ -311,6 +311,7 @@ def run(ctx):
                 'module::locals::ModuleLocals', 'module::custom::ModuleCustomSections']
     polw = Policy(effects=lambda p: not p.startswith('std::') or 'Index' in p, inline=lambda p: False)
     evw = Evaluator(F, polw)
+    evw_for = lambda root: Evaluator(F, local_policy(F, root, public_events=True, events=[r'Index']))
     for wpath in wrappers:
         short = wpath.split('::')[-1]
         for meth in ('delete', 'get', 'get_mut'):
@@ -320,7 +321,7 @@ def run(ctx):
             if short == 'ModuleCustomSections':
                 continue    # typed ids, different shape
             try:
-                ws = evw.run_fn(p, [sym('self'), sym('id')])
+                ws = evw_for(p).run_fn(p, [sym('self'), sym('id')])
             except EvalError as e:
                 res.error('%s not analysable: %s' % (p, e))
                 continue
